@@ -28,30 +28,36 @@ Theorem C16_never_back_to_created : forall c, In c cells -> law_no_created c = t
 Proof. exact no_created_everywhere. Qed.
 Print Assumptions C16_never_back_to_created.
 
-(* every law, for every cell outside the known class (kind = OrderCancelReject) *)
+(* finished statuses are absorbing: everywhere, the OrderCancelReject kind included (repaired in /repo) *)
+Theorem C16_absorbing : forall c, In c cells -> law_absorbing c = true.
+Proof. exact absorbing_everywhere. Qed.
+Print Assumptions C16_absorbing.
+
+(* a just-created order accepts only PENDING_NEW or REJECTED: everywhere (repaired in /repo) *)
+Theorem C16_created_accepts : forall c, In c cells -> law_created_accepts c = true.
+Proof. exact created_accepts_everywhere. Qed.
+Print Assumptions C16_created_accepts.
+
+(* every law, for every cell outside the known class (an OrderCancelReject reporting PENDING_NEW for an
+   acknowledged, unfinished order) *)
 Theorem C16_lifecycle_partial : forall c, In c cells -> kf_cancel_reject c = false -> all_laws c = true.
 Proof. exact lifecycle_partial. Qed.
 Print Assumptions C16_lifecycle_partial.
 
-(* the full statement is false of the code today: witnesses inside the class *)
-Theorem C16_absorbing_refuted :
-  exists c, In c cells /\ c_st c = FILLED /\ c_ms c = NEW /\ c_raise c = 1%N /\ law_absorbing c = false.
-Proof. exact absorbing_refuted. Qed.
-Print Assumptions C16_absorbing_refuted.
-
-Theorem C16_pending_new_refuted : exists c, In c cells /\ law_no_pending_new c = false.
+(* the full statement is false of the code today: every cell of the class moves the order back to PENDING_NEW *)
+Theorem C16_pending_new_refuted : exists c, In c cells /\ kf_cancel_reject c = true /\ law_no_pending_new c = false.
 Proof. exact pending_new_refuted. Qed.
 Print Assumptions C16_pending_new_refuted.
 
-Theorem C16_created_accepts_refuted : exists c, In c cells /\ law_created_accepts c = false.
-Proof. exact created_accepts_refuted. Qed.
-Print Assumptions C16_created_accepts_refuted.
+Theorem C16_class_is_exact : forall c, In c cells -> kf_cancel_reject c = true -> law_no_pending_new c = false.
+Proof. exact class_is_exact. Qed.
+Print Assumptions C16_class_is_exact.
 
 (* the hand model used by C17 is the code's function on the whole domain *)
 Theorem C16_model_is_code : forall c, In c cells -> model_agrees c = true.
 Proof. exact model_matches_graph. Qed.
 Print Assumptions C16_model_is_code.
 
-Theorem C16_partial_nonvacuous : Nat.eqb (length (filter (fun c => negb (kf_cancel_reject c)) cells)) 17280 = true.
+Theorem C16_partial_nonvacuous : N.eqb (N.of_nat (length (filter (fun c => negb (kf_cancel_reject c)) cells))) 21420 = true.
 Proof. exact partial_nonvacuous. Qed.
 Print Assumptions C16_partial_nonvacuous.
